@@ -21,6 +21,18 @@ bnot = z3.Function("bnot", I, I)          # ~x
 pmod = z3.Function("pmod", I, I, I)       # x % m for a symbolic positive modulus m
 
 
+rdiv = z3.Function("rdiv", z3.RealSort(), z3.RealSort(), z3.RealSort())
+
+
+def rdiv_axioms():
+    x, y = z3.Reals("x!rd y!rd")
+    return [z3.ForAll([x, y], z3.Implies(y != 0, rdiv(x, y) * y == x), patterns=[rdiv(x, y)]),
+            z3.ForAll([x, y], z3.Implies(z3.And(y != 0, x == y), rdiv(x, y) == 1), patterns=[rdiv(x, y)]),
+            z3.ForAll([x, y], z3.Implies(z3.And(y > 0, 0 <= x, x <= y), z3.And(0 <= rdiv(x, y), rdiv(x, y) <= 1)),
+                      patterns=[rdiv(x, y)]),
+            z3.ForAll([x, y], z3.Implies(z3.And(y > 0, x > 0), rdiv(x, y) > 0), patterns=[rdiv(x, y)])]
+
+
 def bnot_axioms():
     x = z3.Int("x!bn")
     return [z3.ForAll([x], bnot(x) == -x - 1, patterns=[bnot(x)])]
